@@ -268,11 +268,10 @@ VARIANTS = [
     V( 'hload-release-on-equal', HFILES, "if self._seen and ( self._ts is None or ts > self._ts ):", "if self._seen and ( self._ts is None or ts >= self._ts ):", fires=[ 'H-LOAD' ] ),
     V( 'hstrict-state-proxy', HFILES, "if self._seen and ( self._ts is None or ts > self._ts ):", "if self.state not in (self.INITIAL, self.SWITCHING) and ( self._ts is None or ts > self._ts ):", fires=[ 'H-STRICT' ],
        why='the defect repaired by fix J: AWAITING on the first record of a file' ),
-    V( 'hstrict-seen-set-before-test', HFILES, "if self._strict:\n # But first, carefully release", "self._seen		= True\n                    if self._strict:\n                        # But first, carefully release", fires=[ 'H-STRICT' ] ),
+    V( 'hstrict-seen-set-before-test', HFILES, "if self._ts is None or ts >= self._ts:\n if self._strict:", "if self._ts is None or ts >= self._ts:\n                            self._seen	= True\n                            if self._strict:", fires=[ 'H-STRICT' ] ),
     V( 'hstrict-seen-not-reset', HFILES, "self._strict= True # remains until we see increasing timestamps\n self._seen = False", "self._strict= True # remains until we see increasing timestamps", fires=[ 'H-STRICT' ] ),
     V( 'hstrict-strict-not-set', HFILES, "self._strict= True # remains until we see increasing timestamps", "pass", fires=[ 'H-STRICT', 'H-LOAD' ] ),
-    V( 'hstrict-streaming-moved-up', HFILES, "# We got a non-None <ts>,<js>; if we aren't exhausted, we're now streaming!\n if self._strict:", "if self.state in (self.INITIAL, self.SWITCHING, self.AWAITING):\n                        self.state	= self.STREAMING\n                    if self._strict:", silent=[ 'H-STRICT', 'H-LOAD' ],
-       why='harmless once the release no longer reads the state' ),
+    V( 'hstrict-release-by-skipped-record', HFILES, "if self.state in (self.INITIAL, self.SWITCHING, self.AWAITING):\n self.state = self.STREAMING", "if self._strict and self._seen and ( self._ts is None or ts > self._ts ):\n                        self._strict	= False\n                    if self.state in (self.INITIAL, self.SWITCHING, self.AWAITING):\n                        self.state	= self.STREAMING", fires=[ 'H-LOAD' ], why='defect P: a record that may be skipped releases strict' ),
     V( 'states-name-missing', HFILES, "AWAITING: \"AWAITING\",", "", fires=[ 'X-STATES' ] ),
     V( 'states-bool-le', HFILES, "return self.state < self.COMPLETE", "return self.state <= self.COMPLETE", fires=[ 'X-STATES' ] ),
     V( 'extent-recomputed', MODBUS, "length = max( length, address + count - base )", "length	= address + count - base", fires=[ 'M-EXTENT' ] ),
